@@ -27,6 +27,12 @@ Qed.
 Lemma dispatch_refuted : exists k, In k all_kinds /\ dispatch_handled k = false.
 Proof. exists KBatch. split; [cbn; tauto|apply dispatch_batch_unhandled]. Qed.
 
+(** BATCH [ PING ] parses (to a batch) and has no dispatch arm *)
+Lemma dispatch_refuted_parsed :
+  parse_command_cur [66;65;84;67;72;32;91;32;80;73;78;71;32;93] = POk (CBatch [CPing]) /\
+  dispatch_handled (kind_of (CBatch [CPing])) = false.
+Proof. split; vm_compute; reflexivity. Qed.
+
 (** * Former panic witnesses (LIMIT 4294967296, OFFSET -1, x = 99999999999999999999, x = 1e309 written
     out): since 57cd0c4 the conversions are fallible grammar actions and these are plain parse errors *)
 
